@@ -633,3 +633,35 @@ Proof.
     inversion Jb as [? ? At | |]; subst.
     destruct At as [E|[(z1 & z2 & N1 & _)|(w & A1 & _)]]; [inversion E; contradiction | congruence | congruence].
 Qed.
+
+(* ------------------------------------------------------------------ repeated members are refused *)
+
+Lemma keys_ok_f_dup_free : forall f j, keys_ok_f f j = true -> dup_free_f f j = true.
+Proof.
+  induction f as [|k IH]; intros j Hk; [discriminate Hk|].
+  destruct j as [| | | | |l|l]; cbn [keys_ok_f dup_free_f] in *; try reflexivity.
+  - rewrite forallb_forall in *. intros x Hx. apply IH, Hk, Hx.
+  - apply andb_true_iff in Hk as [Hf Hn]. apply andb_true_iff. split; [|exact Hn].
+    rewrite forallb_forall in *. intros x Hx. specialize (Hf x Hx). apply andb_true_iff in Hf as [_ Hf]. apply IH, Hf.
+Qed.
+
+Lemma keys_ok_dup_free : forall j, keys_ok j = true -> dup_free j = true.
+Proof. intros j. apply keys_ok_f_dup_free. Qed.
+
+Lemma render_checked_refuses_repeated_members : forall H j, dup_free j = false -> render_checked H j = None.
+Proof. intros H j E. unfold render_checked. rewrite E. reflexivity. Qed.
+
+Lemma render_checked_some : forall H j r, render_checked H j = Some r -> dup_free j = true /\ render H j = Some r.
+Proof. intros H j r E. unfold render_checked in E. destruct (dup_free j); [split; [reflexivity|exact E]|discriminate E]. Qed.
+
+(* the injectivity statement for the rendering as the code does it *)
+Theorem render_checked_injective_json : forall H,
+  (forall x, length (H x) = 32%nat) ->
+  forall j1 j2 r, doc_ok j1 -> doc_ok j2 -> render_checked H j1 = Some r -> render_checked H j2 = Some r ->
+  (exists c1 T1 m1 c2 T2 m2, doc_parts j1 = Some (c1, T1, m1) /\ doc_parts j2 = Some (c2, T2, m2) /\ jsame (JObj m1) (JObj m2))
+  \/ collision H.
+Proof.
+  intros H HL j1 j2 r O1 O2 R1 R2.
+  apply render_checked_some in R1 as [_ R1]. apply render_checked_some in R2 as [_ R2].
+  exact (render_injective_json H HL j1 j2 r O1 O2 R1 R2).
+Qed.
